@@ -30,6 +30,20 @@ class sources(DataStreamProcessor):
         for source in self.sources:
             res1 = descriptor.pop('resources', [])
             res2 = source.dp.descriptor['resources']
+            # every source numbers its resources from res_1: keep resource names (and the
+            # paths derived from them) unique in the combined package
+            taken = set(r['name'] for r in res1)
+            for res in res2:
+                name = res['name']
+                index = len(taken) + 1
+                while name in taken:
+                    name = 'res_{}'.format(index)
+                    index += 1
+                if name != res['name']:
+                    if res.get('path') == '{}.csv'.format(res['name']):
+                        res['path'] = '{}.csv'.format(name)
+                    res['name'] = name
+                taken.add(name)
             descriptor.update(source.dp.descriptor)
             descriptor['resources'] = res1 + res2
         dp.commit()
